@@ -172,9 +172,13 @@ type drv struct {
 	inCheck bool
 }
 
-var deadline = 20 * time.Second
+var deadline = 10 * time.Second
 
 type inconclusive struct{ what string }
+
+// histories abandoned because a condition was not reached within the deadline
+var nInconclusive, nCases int
+var aborted bool
 
 func waitCond(what string, cond func() bool) {
 	t0 := time.Now()
@@ -318,6 +322,22 @@ func (d *drv) cleanup() {
 type policy func(d *drv, step int) *op
 
 func runCase(id string, nl int, next policy, em *lib.Emitter) {
+	nCases++
+	if aborted {
+		return
+	}
+	if nInconclusive >= 3 && nInconclusive*20 > nCases {
+		// the implementation cannot be driven: not a verdict on the property, but the
+		// correspondence cannot be checked either.  Stop generating and hand check.py a case
+		// the model rejects as BadCase (a latch that does not exist), so that the run is not
+		// reported as passing; the cases produced so far are still judged.
+		fmt.Fprintf(os.Stderr, "c45: %d of %d histories inconclusive, giving up\n", nInconclusive, nCases)
+		aborted = true
+		em.Case(lib.Case{ID: "too-many-inconclusive-histories",
+			Coq: "{| c_nl := 0%N; c_obs0 := {| o_res := ROk; o_working := true; o_stops := 0%N; o_nworkers := 0%N; o_live := []; o_exec := [] |}; c_steps := [((Lock 7%nat), {| o_res := ROk; o_working := true; o_stops := 0%N; o_nworkers := 0%N; o_live := []; o_exec := [] |})] |}",
+			Key: "inconclusive", In: input{}, Out: "the driver could not drive the implementation"})
+		return
+	}
 	d := &drv{sched: &generator.Scheduler{}, rec: &recorder{},
 		reached: make(chan int), release: make(chan struct{}), done: make(chan struct{})}
 	for i := 0; i < nl; i++ {
@@ -331,6 +351,7 @@ func runCase(id string, nl int, next policy, em *lib.Emitter) {
 		defer func() {
 			if r := recover(); r != nil {
 				if inc, is := r.(inconclusive); is {
+					nInconclusive++
 					em.Tally("inconclusive:" + inc.what)
 					fmt.Fprintf(os.Stderr, "c45: case %s inconclusive: %s\n", id, inc.what)
 					ok = false
@@ -463,7 +484,7 @@ func main() {
 	for i := 0; i < L; i++ {
 		total *= len(letters)
 	}
-	nSmall := o.Count(300, 12000)
+	nSmall := o.Count(220, 12000)
 	perm := rng.Fork("small").Perm(total)
 	for i := 0; i < nSmall && i < total; i++ {
 		code := perm[i]
@@ -485,7 +506,7 @@ func main() {
 	}
 
 	// --- structured random histories
-	nRand := o.Count(300, 3000)
+	nRand := o.Count(240, 3000)
 	for i := 0; i < nRand; i++ {
 		r := rng.Fork(fmt.Sprintf("rand%d", i))
 		nl := r.Range(1, 3)
